@@ -400,6 +400,11 @@ class ScriptedProtocol(IProtocol):
 
     def handle_telemetry(self, telemetry: Telemetry):
         p = telemetry.current_position
+        kept = getattr(CTX, "kept_telemetry", None)
+        if kept is not None and len(kept) < 4000:
+            # the protocol keeps the message it was given (to compare it with the next one, say): it is that update's
+            # report for good
+            kept.append((self.provider.get_id(), self.provider.current_time(), telemetry, (float(p[0]), float(p[1]), float(p[2]))))
         sim = getattr(CTX, "sim", None)
         if sim is not None:
             # the telemetry of an update carries the node's position right after that update; nothing moves a node
@@ -570,6 +575,7 @@ def run_sim_impl(sc, variant=None):
     variant = variant or sc.get("variant") or {}
     CTX.scenario, CTX.trace, CTX.draws = sc, [], 0
     CTX.sim = None
+    CTX.kept_telemetry = []
     orig_random = random.random
     stream = sc.get("stream")
     box = {}
@@ -716,6 +722,15 @@ def run_sim_impl(sc, variant=None):
                     if not r:
                         status = "done"
             it_count = getattr(sim, "_iteration", "?")
+            for nid, when, tel, then in CTX.kept_telemetry:
+                try:
+                    q = tel.current_position
+                    now_ = (float(q[0]), float(q[1]), float(q[2]))
+                except Exception:  # noqa: BLE001
+                    now_ = None
+                if now_ != then:
+                    CTX.trace.insert(len(CTX.trace), "stale %d telemetry kept from time %s reported %s and reports %s now" % (nid, fhex(when), then, now_))
+                    break
             CTX.trace.append("end %s iter %s draws %d" % (status, it_count, CTX.draws))
     except Runaway as e:
         del CTX.trace[3000:]
@@ -725,6 +740,7 @@ def run_sim_impl(sc, variant=None):
         signal.signal(signal.SIGALRM, old_handler)
         random.random = orig_random
         CTX.sim = None
+        CTX.kept_telemetry = None
     return CTX.trace, CTX.draws
 
 
